@@ -274,7 +274,7 @@ func (t *tree) parseCss(token item) ast.Node {
 	var exprText = strings.TrimSpace(cmdText.val[:lastComma])
 	return &ast.CssNode{
 		token.pos,
-		t.parseQuotedExpr(exprText),
+		t.parseQuotedExpr(exprText, token.pos),
 		strings.TrimSpace(cmdText.val[lastComma+1:]),
 	}
 }
@@ -324,7 +324,7 @@ func (t *tree) parseCall(token item) ast.Node {
 		if data == "all" {
 			allData = true
 		} else {
-			dataNode = t.parseQuotedExpr(data)
+			dataNode = t.parseQuotedExpr(data, token.pos)
 		}
 	}
 
@@ -418,7 +418,7 @@ func (t *tree) parseCallParams() []ast.Node {
 			t.expect(itemRightDelim, "param")
 			params = append(params, &ast.CallParamContentNode{initial.pos, key, value})
 		} else {
-			value = t.parseQuotedExpr(valueStr)
+			value = t.parseQuotedExpr(valueStr, initial.pos)
 			t.expect(itemRightDelimEnd, "param")
 			params = append(params, &ast.CallParamValueNode{initial.pos, key, value})
 		}
@@ -819,8 +819,31 @@ func (t *tree) boolAttr(attrs map[string]string, key string, defaultValue bool) 
 }
 
 // parseQuotedExpr ignores the current lex/parse state and parses the given
-// string as a standalone expression.
-func (t *tree) parseQuotedExpr(str string) ast.Node {
+// string, found in the tag at tagPos, as a standalone expression.
+func (t *tree) parseQuotedExpr(str string, tagPos ast.Pos) ast.Node {
+	var node = t.parseQuotedExprAlone(str)
+	// the positions of the nodes refer to str, not to the file: errors found in
+	// them later (while rendering) would be reported on line 1.  Place them at
+	// the tag that holds the expression.
+	setPosition(node, tagPos)
+	return node
+}
+
+func setPosition(node ast.Node, pos ast.Pos) {
+	if node == nil {
+		return
+	}
+	if n, ok := node.(interface{ SetPosition(ast.Pos) }); ok {
+		n.SetPosition(pos)
+	}
+	if parent, ok := node.(ast.ParentNode); ok {
+		for _, child := range parent.Children() {
+			setPosition(child, pos)
+		}
+	}
+}
+
+func (t *tree) parseQuotedExprAlone(str string) ast.Node {
 	var tt = &tree{lex: lexExpr("", str)}
 	defer tt.lex.drain()
 	defer func() {
